@@ -33,6 +33,7 @@ def handlers : List (String × (Json → R Json)) := [
   ("floor", Dispatch.hFloor),
   ("kde", Kde.hKde),
   ("geom_parts", Geom.hGeomParts),
+  ("geom_spectral", Geom.hGeomSpectral),
   ("poisson_mi", PoissonMI.hPoissonMI),
   ("poisson_mi_args", PoissonMI.hPoissonMIArgs)
 ]
